@@ -508,7 +508,7 @@ def field_case(field, ch, pos):
         ops = [["setCookie", cookie(S("sid"), B(e(b"val")), via="signed", expires_days=None)]]
     else:
         raise AssertionError(field)
-    return {"ops": ops, "field": field, "cp": ord(ch) if isinstance(ch, str) else ch[0], "pos": pos}
+    return {"ops": ops, "field": field, "cp": ord(ch[0]) if isinstance(ch, str) else ch[0], "pos": pos}
 
 
 def enum_cases(fields_str=FIELDS_STR, fields_bytes=FIELDS_BYTES, cps=None, positions=(0, 1, 2)):
